@@ -37,6 +37,8 @@ inductive Refusal where
   | hoistAccessedBefore  -- HoistTrans: written variable accessed earlier in the loop
   | hoistOtherWrite      -- HoistTrans: written variable written elsewhere in the loop
   | hoistReadsWritten    -- HoistTrans: statement reads a variable written in the loop
+  | stepNotDividing      -- ChunkLoopTrans (repaired): the step does not divide the chunk size
+  | boundSelf            -- ChunkLoopTrans (repaired): start/stop mention the loop variable itself
   deriving DecidableEq, Repr, Inhabited
 
 def Refusal.name : Refusal → String
@@ -49,6 +51,7 @@ def Refusal.name : Refusal → String
   | .notAssignment => "notAssignment" | .hoistReadAndWritten => "hoistReadAndWritten"
   | .hoistAccessedBefore => "hoistAccessedBefore" | .hoistOtherWrite => "hoistOtherWrite"
   | .hoistReadsWritten => "hoistReadsWritten"
+  | .stepNotDividing => "stepNotDividing" | .boundSelf => "boundSelf"
 
 /-! ## variable access information (the part of `VariablesAccessInfo` the validators use) -/
 
@@ -479,6 +482,54 @@ def tileApply (t : TileTarget) : Stmt :=
           (.loop t.v (.var t.outO) (.var t.elO) t.st
             (.seq i.1 (.loop vi (.var t.outI) (.var t.elI) (.lit si) bi)))))
   | _, _ => t.original
+
+/-! ## candidate repairs (`/verif/fixes/C05-*.patch`)
+
+Each flag says whether one small repair is present in the code under test; the harness probes
+the live code on every run (one canonical target per flag) and passes the flags with every
+protocol line, so the model always describes the tree it is compared with.  With all flags off
+the functions below are the pinned ones. -/
+
+structure Fixes where
+  /-- `C05-fuse-argument-order`: `validate` refuses `apply(second, first)` -/
+  fuseOrder : Bool := false
+  /-- `C05-chunk-step-divides`: the step must divide the chunk size -/
+  chunkDiv : Bool := false
+  /-- `C05-chunk-bound-loopvar`: start/stop must not mention the loop variable -/
+  chunkSelf : Bool := false
+  deriving DecidableEq, Repr, Inhabited
+
+def chunkValidateF (f : Fixes) (t : ChunkTarget) : Except Refusal Unit :=
+  if t.chunk ≤ 0 then .error .badOption else
+  match t.l.st with
+  | .lit s =>
+    if s.natAbs > t.chunk.natAbs then .error .stepTooLarge
+    else if t.chunked then .error .alreadyChunked
+    else if s = 0 then .error .zeroStep
+    else if f.chunkDiv && t.chunk.natAbs % s.natAbs != 0 then .error .stepNotDividing
+    else if f.chunkSelf && decide (t.l.v ∈ eVars t.l.lo ++ eVars t.l.hi) then .error .boundSelf
+    else if (t.l.v :: (eVars t.l.lo ++ eVars t.l.hi)).any (fun x => decide (x ∈ wVars t.l.body)) then
+      .error .boundWritten
+    else .ok ()
+  | _ => .error .nonLiteralStep
+
+/-- the order test follows the adjacency test and raises the same class of error -/
+def fuseValidateF (f : Fixes) (t : FuseTarget) : Except Refusal Unit :=
+  if !t.adjacent then .error .notAdjacent
+  else if f.fuseOrder && t.reversed then .error .notAdjacent
+  else fuseValidate t
+
+def tileValidateF (f : Fixes) (t : TileTarget) : Except Refusal Unit :=
+  if t.tile ≤ 0 then .error .badOption else
+  match swapValidate ⟨t.v, t.lo, t.hi, t.st, t.body⟩ with
+  | .error e => .error e
+  | .ok () =>
+    match chunkValidateF f ⟨⟨t.v, t.lo, t.hi, t.st, seqs t.body⟩, t.tile, false, t.outO, t.elO⟩ with
+    | .error e => .error e
+    | .ok () =>
+      match t.body with
+      | .loop vi loi hii sti bi :: _ => chunkValidateF f ⟨⟨vi, loi, hii, sti, bi⟩, t.tile, false, t.outI, t.elI⟩
+      | _ => .ok ()
 
 /-! ## FoldConditionalReturnExpressionsTrans
 
